@@ -13,7 +13,7 @@ use serde_json::json;
 use std::collections::BTreeMap;
 
 pub fn run_c03_semgen(ctx: &RunCtx) {
-    let n = ctx.pick(100_000u64, 5_000_000u64);
+    let n = ctx.pick(200_000u64, 5_000_000u64);
     ctx.random("semgen-faulty", n, 900, |src| {
         let style = [Style::Minimal, Style::Spaced, Style::Wild][src.below(3)];
         let mut p = Profile::faulty();
@@ -359,7 +359,7 @@ fn depth_of(prog: &[Stmt]) -> usize {
 pub fn run_c06(ctx: &RunCtx) {
     ctx.set_rule("generated programs of the supported subset without faults (all statement kinds nested to the profile depth, block and single-statement bodies, every supported operator, annotations, pragmas, stdgates include), leaves made identifiable; joint walk of the model term and the graph through public accessors: statement kinds and order, block contents, branches, loop bodies, cases/default, gate/def bodies and parameter lists, operand/argument/index/modifier order, operator identity, literal class and value, annotation and pragma text; a third of the budget re-runs the walk with runs of top-level statements moved into one to three real include files (one level of nesting), where the graph must be that of the unsplit program (includes expanded in place). implicit casts are skipped. non-trivial = >=2 nesting levels or a control-flow statement; distinct by model term");
     ctx.assume("the expected graph vocabulary is read off asg.rs (node types), not off the translation code; implicit Cast wrappers are C08's subject");
-    let n = ctx.pick(150_000u64, 5_000_000u64);
+    let n = ctx.pick(300_000u64, 5_000_000u64);
     run_joint(ctx, "C06", "plain", n, Profile::plain(), |_, p| depth_of(p) >= 1);
     run_joint(ctx, "C06", "faulty", n / 2, Profile::faulty(), |_, p| depth_of(p) >= 1);
     run_joint_split(ctx, "C06", n / 3);
@@ -369,7 +369,7 @@ pub fn run_c06(ctx: &RunCtx) {
 pub fn run_c07(ctx: &RunCtx) {
     ctx.set_rule("generated programs with the scope-stress profile: names from small pools incl. pi, U, h, cx, tau, rz; declarations and uses at every scope kind to depth 5; use before declaration, use after scope exit, duplicates in one scope, shadowing, parameter / loop-variable collisions, double stdgates include; a share of plain programs re-walked with top-level statement runs moved into real include files (bindings made in an included file are global bindings). oracle: reference stack-of-maps resolution during the joint walk: bijection between reference declarations and SymbolIds, symbol names as written, unresolved = MissingBinding + Undefined type, duplicates = AlreadyBound; per-statement counts of UndefVarError / RedeclarationError; scope depth 1 at the end. non-trivial = >=1 shadowing / unresolved / duplicate event and >=3 scopes; distinct by model term");
     ctx.assume("self-reference inside an initializer or inside the own gate/def body is not generated (the statement does not settle it)");
-    let n = ctx.pick(150_000u64, 5_000_000u64);
+    let n = ctx.pick(300_000u64, 5_000_000u64);
     run_joint(ctx, "C07", "scope-stress", n, Profile::scope_stress(), |j, _| (j.n_shadow + j.n_dup + j.n_missing) >= 1 && j.n_scopes >= 3);
     run_joint(ctx, "C07", "faulty", n / 2, Profile::faulty(), |j, _| (j.n_shadow + j.n_dup + j.n_missing) >= 1 && j.n_scopes >= 3);
     run_joint(ctx, "C07", "plain", n / 4, Profile::plain(), |j, _| j.n_scopes >= 3);
@@ -380,7 +380,7 @@ pub fn run_c07(ctx: &RunCtx) {
 pub fn run_c13(ctx: &RunCtx) {
     ctx.set_rule("generated programs with the usage profile: otherwise well-typed and well-scoped programs in which each rule is independently violated or respected at random sites (standard, built-in and user gates with 0-4 parameters / 1-4 qubits, inv/pow modifiers, scalar/register/indexed/hardware operands, subroutine calls with -1/0/+1 arguments, assignment to const, qubit/gate/def declarations below global scope, return at global scope, non-duration delay, quantum operand of a binary operator). oracle: per innermost statement the multiset of the eight listed diagnostic kinds equals the reference multiset (missing and spurious). non-trivial = >=1 violated rule site; distinct by model term");
     ctx.assume("IncompatibleTypesError is not judged on statements containing an unresolved name, arity diagnostics are not judged for ctrl/negctrl-modified calls; indexing a scalar qubit and assignment to non-classical symbols are not generated");
-    let n = ctx.pick(200_000u64, 5_000_000u64);
+    let n = ctx.pick(400_000u64, 5_000_000u64);
     run_joint(ctx, "C13", "usage", n, Profile::usage(), |j, _| j.n_usage_violated >= 1);
     run_joint(ctx, "C13", "plain", n / 4, Profile::plain(), |_, p| p.len() >= 4);
     deterministic_forms(ctx, "C13");
@@ -597,7 +597,7 @@ fn first_diff(a: &str, b: &str) -> String {
 pub fn run_c17(ctx: &RunCtx) {
     ctx.set_rule("generated programs (valid and with semantic faults) x (a) 3 re-layouts, (b) 2 injective renamings of user identifiers to fresh names (ASCII and Unicode), (c) every split point at a top-level statement boundary, (d) a second run. oracle: graph (Debug rendering, which contains symbol ids but no names or ranges), symbol list (name, type) and ordered diagnostic kinds are identical / identical up to the renaming / prefixes; Program and SymbolTable equal under PartialEq on the second run. non-trivial = >=4 statements and >=1 nested scope; distinct by model term");
     ctx.assume("renaming never touches keywords, built-in constants, U, standard-gate names or hardware qubits");
-    let n = ctx.pick(15_000u64, 2_000_000u64);
+    let n = ctx.pick(30_000u64, 1_000_000u64);
     // a case costs ~8 analyses: keep shrinking short
     ctx.shrink_iters.store(2_000, std::sync::atomic::Ordering::Relaxed);
     for (name, profile) in [("plain", Profile::plain()), ("faulty", Profile::faulty()), ("scope-stress", Profile::scope_stress())] {
